@@ -543,6 +543,14 @@ func c13SeqSpecs() []spec.Spec {
 		spec.Spec{Name: "c13-css-shorthands", Base: "new", Calls: []C{els("p", "span"),
 			{Op: "AllowStyles", Names: []string{"border", "background", "animation", "font", "transition", "margin", "padding", "outline", "columns", "flex", "list-style",
 				"text-decoration", "border-radius", "border-top", "column-rule", "grid-area", "transform", "box-shadow", "text-shadow", "filter"}, Scope: "global"}}},
+		// three global rules for one attribute (a slice with spare capacity) next to element rules for the same attribute
+		spec.Spec{Name: "c13-global-attr-capacity", Base: "new", Calls: []C{els("span", "abbr", "b"),
+			attrsGlob([]string{"title"}, "Paragraph"), attrsGlob([]string{"title"}, `^[a-z]+$`), attrsGlob([]string{"title"}, `^[0-9]+$`),
+			attrsOn([]string{"title"}, `^x[0-9]$`, "span"), attrsOn([]string{"title"}, `^y[0-9]$`, "abbr"), attrsOn([]string{"title"}, "", "b")}},
+		// style rules through two disjoint element patterns only (no global, no element-specific style rule)
+		spec.Spec{Name: "c13-disjoint-style-patterns", Base: "new", Calls: []C{{Op: "AllowElementsMatching", Re: reMy}, {Op: "AllowElementsMatching", Re: `^zz-[a-z]+$`},
+			{Op: "AllowStyles", Names: []string{"color"}, Scope: "matching", OnRe: reMy}, {Op: "AllowStyles", Names: []string{"width"}, Scope: "matching", OnRe: `^zz-[a-z]+$`},
+			{Op: "AllowStyles", Names: []string{"height"}, Enum: []string{"1px"}, Scope: "matching", OnRe: `^qq-[a-z]+$`}, attrsGlob([]string{"style"}, "")}},
 		spec.Spec{Name: "c13-iframe-crossorigin", Base: "new", Calls: []C{{Op: "AllowIFrames", Ints: []int{2, 10}}, attrsOn([]string{"src", "sandbox"}, "", "iframe"),
 			attrsOn([]string{"src", "crossorigin"}, "", "img", "audio"), opt("RequireCrossOriginAnonymous", true), {Op: "AllowComments"}, opt("AddSpaceWhenStrippingTag", true)}},
 	)
@@ -562,6 +570,8 @@ func c13SeqInputs() []string {
 		`<p style="transform: rotate(1deg)">q</p>`, `<p style="transform: bogus(1)">r</p>`, `<p style="box-shadow: 1px 1px red">s</p>`, `<p style="outline: 1px bogus red; border-radius: 1px 2px">t</p>`,
 		`<a href="javascript:alert(1)">j</a>`, `<a href=" http://e.x/ ">s</a>`, `<a href="HTTPS://E.X/p">u</a>`, `<a href="https://e.x/" rel="x" target="y">v</a>`, `<area href="//e.x/p">`,
 		`<a href="%zz">bad escape</a>`, `<img src="javascript:x"><img src="https://e.x/i">`, `<iframe src="https://e.x/" sandbox="allow-forms allow-scripts x"></iframe>`,
+		`<span title="x1">s</span><abbr title="y2">a</abbr><b title="any thing">b</b>`, `<span title="y2">s</span>`, `<abbr title="x1">a</abbr><span title="12">n</span>`,
+		`<my-y style="color: red; width: 5px">m</my-y>`, `<zz-a style="width: 5px; color: red">z</zz-a>`,
 		`<p>see <a>here</p>`, `</b></a>stray`, `<object><a>1</a></object><a href="/a">A</a>`, `<!-- c --><b>t`, ``, ` `,
 	)
 	return in
@@ -759,6 +769,19 @@ func runC13(c *run.Ctx) {
 		// cheapest explorations first, so that a budget cut-off loses the least
 		for i, in := range c13Inputs {
 			exploreC13(c, mk, []string{in}, 1, false, true, 0, 2, []string{seq[i]}, fmt.Sprintf("maporder-input%d", i))
+		}
+		// map-iteration orders on a policy whose style rules come from disjoint element patterns only (which pattern the
+		// map yields last must not matter)
+		for _, ds := range c13SeqSpecs() {
+			if ds.Name != "c13-disjoint-style-patterns" {
+				continue
+			}
+			ds := ds
+			dmk := func() *bluemonday.Policy { return spec.Build(ds) }
+			for di, din := range []string{`<my-y style="color: red; width: 5px">m</my-y>`, `<zz-a style="width: 5px; color: red">z</zz-a><b style="color: red">b</b>`} {
+				dseq, _ := San(dmk(), din)
+				exploreC13(c, dmk, []string{din}, 1, false, true, 0, 2, []string{dseq}, fmt.Sprintf("maporder-disjoint-patterns%d", di))
+			}
 		}
 		pairs := [][]int{{0, 1}, {0, 3}, {1, 2}, {2, 3}, {1, 3}, {0, 2}}
 		for pi, pr := range pairs {
